@@ -101,3 +101,19 @@ CHECKS["C20"] = {
           "whole space is executed, not proved (open statement: segment independence of Cli.run); representative values stand for "
           "their class.",
 }
+CHECKS["C08"] = {
+  "text": "Theorems for all entry lists / trees, variant maps and flag sets about the Lean transliteration of the rename planner "
+          "(first contained key in BTreeMap order, str::replace, file-name coercion, with_file_name, flag and root filters, both "
+          "conflict kinds, refusal): exactly one rename per eligible name and none otherwise, only the last component changes, "
+          "distinct sources, an accepted plan has pairwise distinct destinations (a shared or Windows-reserved destination refuses "
+          "the plan), same-style new name for a single occurrence, and the accepted plan satisfies every guard of the C02ren "
+          "rename-phase theorem, so after apply each node sits at finalPath and nothing else moved. The model is run against the "
+          "real plan_renames_with_search / plan_renames_with_conflicts / scan_repository_multi on generated trees on every run; an "
+          "independent by-construction oracle judges the plans and the on-disk result of `rename -y`.",
+  "design_ref": "DESIGN.md section 4, C08",
+  "technique": "Lean 4 proof (list induction; composition with C02ren.renamePhase_ok) + generated tables + differential correspondence + by-construction oracle + CLI end-to-end",
+  "note": TB + "walker scope is a parameter (C09); variant map is a parameter taken from the real generate_variant_map per case (C18); "
+          "coercion enters the general theorems through the contract CoerceSafe (result is a usable file name), checked differentially "
+          "and by kernel-evaluated instances; ASCII names where the term occurs; case-sensitive filesystem only; the composition "
+          "theorem is for one search root, two disjoint roots are covered differentially.",
+}
